@@ -50,7 +50,7 @@ def scratch_parent(ctx):
     return ctx.work
 
 
-def startup_case(ctx, faults, script_fault, sanity_ok, sanity_mode='exit1'):
+def startup_case(ctx, faults, script_fault, sanity_ok, sanity_mode='exit1', bare_script=False):
     """faults: per test case one of ok/missing/unreadable/unwritable/absolute"""
     base = tempfile.mkdtemp(prefix='mis-', dir=scratch_parent(ctx))
     os.chmod(base, 0o755)
@@ -91,12 +91,23 @@ def startup_case(ctx, faults, script_fault, sanity_ok, sanity_mode='exit1'):
         os.chown(dp, 65534, 65534)
         for x in fns:
             os.chown(os.path.join(dp, x), 65534, 65534)
-    case = {'work': work, 'tmp': tmp, 'script': script, 'test_cases': names, 'also_interesting': 7 if sanity_mode == 'also' else None}
+    decoy = None
+    if bare_script:
+        # the test is named without a directory part ('test.sh'), and a program of that name happens to be on PATH
+        decoy = os.path.join(base, 'decoy-bin')
+        os.mkdir(decoy)
+        with open(os.path.join(decoy, 'test.sh'), 'w') as fh:
+            fh.write('#!/bin/sh\nexit 0\n')
+        os.chmod(os.path.join(decoy, 'test.sh'), 0o755)
+        os.chmod(decoy, 0o755)
+    case = {'work': work, 'tmp': tmp, 'script': 'test.sh' if bare_script else script, 'test_cases': names, 'also_interesting': 7 if sanity_mode == 'also' else None}
     cf = os.path.join(base, 'case.json')
     with open(cf, 'w') as fh:
         json.dump(case, fh)
     os.chown(cf, 65534, 65534)
     env = dict(os.environ, PYTHONPATH=os.environ.get('VERIF_REPO', '/repo'), HOME=base)
+    if decoy:
+        env['PATH'] = decoy + os.pathsep + env.get('PATH', '')
     r = subprocess.run(['/venv/bin/python', CHILD, cf, 'drop'], capture_output=True, text=True, env=env)
     shutil.rmtree(base, ignore_errors=True)
     try:
@@ -192,6 +203,20 @@ def explore(ctx):
                 ctx.violation(f'wrong-error:InsaneTestCaseError:got-{res["exc"]}', f'uninteresting input, test {"exits with the also-interesting code 7" if mode == "also" else "exits 1 after printing bytes that are not UTF-8" if mode == "noise" else "rejects the (empty) test cases" if mode == "empty" else "exits 1 after appending to its input"}: expected InsaneTestCaseError, got {res["exc"]}', rep)
             if not res.get('unchanged'):
                 ctx.violation('startup-side-effect', f'uninteresting input ({mode}): the working directory changed although start-up was refused', rep)
+    # the interestingness test named without a directory part while a program of the same name is on PATH: what is in the
+    # working directory counts (missing / not executable -> refused, naming it; nothing touched)
+    for script_fault in ('noexec', 'missing'):
+        res, names = startup_case(ctx, ('ok', 'ok'), script_fault, True, bare_script=True)
+        ctx.evaluations += 1
+        ctx.nontriv(('bare-script', script_fault))
+        ctx.count('startup:bare-test-name:' + script_fault)
+        rep = {'faults': ['ok', 'ok'], 'script': script_fault, 'sanity_ok': True, 'bare_script': True}
+        if res['exc'] != 'InvalidInterestingnessTestError':
+            ctx.violation(f'wrong-error:InvalidInterestingnessTestError:got-{res["exc"]}', f'interestingness test given as "test.sh" ({script_fault} in the working directory, an executable '
+                          f'test.sh on PATH): expected InvalidInterestingnessTestError, got {res["exc"]}', rep)
+        if not res.get('unchanged'):
+            ctx.violation('startup-side-effect', f'interestingness test given as "test.sh" ({script_fault}): the working directory changed', rep)
+    commands_mode(ctx)
     ctx.sample({'misuse': ['ok', 'unreadable'], 'expected': 'InvalidTestCaseError naming sub/tc1.c, access R_OK'})
     bad = coq.corr_eval('c17', ['From CV Require Import Driver.Startup Driver.StartupCorr.', 'From Coq Require Import String.', 'Open Scope string_scope.'],
                         'run_startup', cases, shard=200)
@@ -200,6 +225,44 @@ def explore(ctx):
     for b in bad[:5]:
         ctx.broke('correspondence', 'start-up decision table', f'{cases[b][0]} impl {cases[b][1]}')
     pass_arguments(ctx)
+
+
+def commands_mode(ctx):
+    """cvise.py --commands '...' (the test is generated from a shell command) on misuse that is refused at start-up:
+    the working directory must be exactly as before (run through the real command line in a child process)"""
+    child = os.path.join(os.path.dirname(os.path.dirname(os.path.abspath(__file__))), 'vlib', 'cli_child.py')
+    repo = os.environ.get('VERIF_REPO', '/repo')
+    for what, files, cmd, tcs in (('missing test case', {'a.c': 'int a;\n'}, 'true', ['nope.c']),
+                                  ('uninteresting input', {'a.c': 'int a;\n', 'sub/b.h': 'x\n'}, 'exit 1', ['a.c']),
+                                  ('absolute path', {'a.c': 'int a;\n'}, 'true', ['/etc/hostname'])):
+        base = tempfile.mkdtemp(prefix='cmds-', dir=ctx.tmp)
+        work = os.path.join(base, 'w')
+        tmpd = os.path.join(base, 't')
+        os.mkdir(tmpd)
+        for n, c in files.items():
+            os.makedirs(os.path.dirname(os.path.join(work, n)), exist_ok=True)
+            with open(os.path.join(work, n), 'w') as fh:
+                fh.write(c)
+
+        def snap():
+            out = {}
+            for dp, dns, fns in os.walk(work):
+                for x in dns + fns:
+                    pth = os.path.join(dp, x)
+                    out[os.path.relpath(pth, work)] = open(pth, 'rb').read() if os.path.isfile(pth) else None
+            return out
+        before = snap()
+        r = subprocess.run(['/venv/bin/python', child, 'linux', '--commands', cmd, '--no-timing', '--n', '1'] + tcs, cwd=work, capture_output=True, text=True,
+                           env=dict(os.environ, PYTHONPATH=repo, VERIF_REPO=repo, TMPDIR=tmpd), timeout=120)
+        ctx.evaluations += 1
+        ctx.count('startup:--commands:' + what)
+        ctx.nontriv(('commands', what))
+        after = snap()
+        rep = {'commands': cmd, 'test_cases': tcs, 'what': what}
+        # (the command line prints the C-Vise error and ends; its exit status is not what is studied here)
+        if after != before:
+            ctx.violation('startup-side-effect', f'cvise.py --commands {cmd!r} {tcs} ({what}) was refused, but the working directory changed: '
+                          f'new {sorted(set(after) - set(before))}, gone {sorted(set(before) - set(after))}', rep)
 
 
 def pass_arguments(ctx):
@@ -242,6 +305,15 @@ def pass_arguments(ctx):
 
 def replay(ctx, payload):
     r = payload['replay']
+    if r.get('commands') is not None:
+        commands_mode(ctx)
+        return
+    if r.get('bare_script'):
+        res, names = startup_case(ctx, r['faults'], r['script'], r['sanity_ok'], bare_script=True)
+        print('replay:', res)
+        if res['exc'] != 'InvalidInterestingnessTestError' or not res.get('unchanged'):
+            ctx.violation('wrong-error:InvalidInterestingnessTestError:got-' + str(res['exc']), 'replayed', r)
+        return
     if r.get('sanity_mode'):
         res, names = startup_case(ctx, r['faults'], r['script'], r['sanity_ok'], sanity_mode=r['sanity_mode'])
         print('replay:', res)
